@@ -146,7 +146,16 @@ pub fn case_for(ctx_seed: u64, tier: Tier, run: u64) -> SessionCase {
         };
     }
     let mut rng = sub_rng(ctx_seed, "C01", run, "case");
-    let kn = tier.pick(gen::Knobs::quick(), gen::Knobs::thorough());
+    let mut kn = tier.pick(gen::Knobs::quick(), gen::Knobs::thorough());
+    // a few LARGE circuits (257..700 gates: 9-10 folding rounds)
+    let every = tier.pick(1500u64, 3000);
+    if run % every == 77 {
+        let _ = &mut kn;
+        let gates = 257 + below(&mut rng, 400);
+        let st = with_curve!(curve, G, gen::gen_large_statement::<<G as AffineRepr>::ScalarField>(&mut rng, curve, gates));
+        let (_, _, _, padded) = shape_of(&st);
+        return SessionCase { st, cap_p: vec![padded], cap_v: vec![padded], ext_seed: rand_core::RngCore::next_u64(&mut rng) };
+    }
     gen_session_case(&mut rng, curve, &kn)
 }
 
